@@ -149,6 +149,67 @@ let run_spec_stream c =
       (int_of_n si.si_channels) (int_of_n si.si_bps) (int_of_n si.si_rate) (List.length frames) (json_ints (List.concat inter))
   | r -> Printf.sprintf "{\"end\":\"%s\"}" (res_name r)
 
+(* ---- generator of valid streams (C03): one output line per generated stream ---- *)
+let run_gen c =
+  let open Codec_gen in
+  let seed = int_field c "seed" 1 and count = int_field c "count" 10 in
+  let subset_mode = (str_field c "mode" = "subset") in
+  let r = { s = Int64.of_int (seed * 7919 + (if subset_mode then 13 else 0)) } in
+  let out = Buffer.create 4096 in
+  let made = ref 0 and tries = ref 0 in
+  while !made < count && !tries < count * 20 do
+    incr tries;
+    let channels = if chance r 1 2 then pick r [1; 2; 2] else range r 1 8 in
+    let bps = if subset_mode then pick r [8; 12; 16; 20; 24; 32] else (if chance r 1 2 then range r 1 32 else pick r [8; 12; 16; 20; 24; 32]) in
+    let rate = pick r [44100; 48000; 8000; 96000; 22050; 192000; 1000; 65535; 655350; 12345; 700001; 32000; 1; 1048575; 255000; 88200] in
+    let rate = if subset_mode && rate > 655350 then 96000 else rate in
+    let nframes = range r 1 3 in
+    let variable = chance r 1 3 in
+    let sizes = List.init nframes (fun i ->
+        if i < nframes - 1 then pick r [16; 17; 24; 32; 64; 192; 256; 100; 15]
+        else if chance r 1 2 then range r 1 40 else pick r [16; 64; 192; 255; 256; 257; 576; 1000]) in
+    let max_bs = List.fold_left max 1 sizes in
+    let total = List.fold_left (+) 0 sizes in
+    let declare_total = chance r 2 3 in
+    let si = { si_min_bs = n_of_int max_bs; si_max_bs = n_of_int max_bs; si_min_fs = N0; si_max_fs = N0;
+               si_rate = n_of_int rate; si_channels = n_of_int channels; si_bps = n_of_int bps;
+               si_total = n_of_int (if declare_total then total else 0); si_md5 = [] } in
+    let ok = ref true in
+    let pos = ref 0 in
+    let frames = List.mapi (fun i bs ->
+        let number = if variable then !pos else i in
+        pos := !pos + bs;
+        let (f, _target) = gen_frame r ~subset:subset_mode ~rate ~bps ~channels ~bs ~number ~variable in
+        let sio = if subset_mode then None else Some si in
+        (match wf_frame sio f, spec_frame f with
+         | true, true -> ()
+         | _ -> ok := false);
+        (match write_frame f with Some b -> (f, b) | None -> ok := false; (f, []))) sizes in
+    if !ok then begin
+      incr made;
+      let pcm = List.map (fun (f, _) -> List.map int_of_z (interleave_frame (sem_frame f))) frames in
+      let body = List.concat_map (fun (_, b) -> List.map int_of_n b) frames in
+      let bytes, kind =
+        if subset_mode then (body, "dec_subset")
+        else begin
+          let md5kind = below r 3 in
+          let md5 = if md5kind = 0 then List.init 16 (fun _ -> 0) else md5_of_pcm bps pcm in
+          let md5 = if md5kind = 2 then (match md5 with x :: t -> (x lxor 1) :: t | [] -> []) else md5 in
+          let sib = streaminfo_bytes ~min_bs:max_bs ~max_bs ~rate ~channels ~bps ~total:(if declare_total then total else 0) ~md5 in
+          (* optionally a PADDING block after STREAMINFO *)
+          let pad = if chance r 1 3 then [0x81; 0; 0; 3; 0; 0; 0] else [] in
+          let hdr = [0x66; 0x4C; 0x61; 0x43; (if pad = [] then 0x80 else 0x00); 0; 0; 34] in
+          (hdr @ sib @ pad @ body, (match md5kind with 0 -> "dec_stream:nomd5" | 1 -> "dec_stream:md5ok" | _ -> "dec_stream:md5bad"))
+        end in
+      let hexs = String.concat "" (List.map (Printf.sprintf "%02x") bytes) in
+      let frames_json = String.concat "," (List.map (fun fr -> json_ints fr) pcm) in
+      Buffer.add_string out (Printf.sprintf "{\"id\":\"gen-%d-%d\",\"kind\":\"%s\",\"bytes\":\"%s\",\"ch\":%d,\"bps\":%d,\"rate\":%d,\"expect_frames\":[%s],\"expect\":%s}\n"
+                               seed !made kind hexs channels bps rate frames_json (json_ints (List.concat pcm)))
+    end
+  done;
+  Buffer.add_string out (Printf.sprintf "{\"gen_done\":%d,\"tries\":%d}" !made !tries);
+  Buffer.contents out
+
 let () =
   try
     while true do
@@ -163,6 +224,7 @@ let () =
              | "dec_subset" -> run_dec_subset c
              | "struct" -> run_struct c
              | "spec_stream" -> run_spec_stream c
+             | "gen" -> run_gen c
              | k -> Printf.sprintf "{\"end\":\"unknown-kind:%s\"}" k)
           with
           | Stack_overflow -> "{\"end\":\"driver-stack-overflow\"}"
